@@ -94,9 +94,9 @@ Section SB.
   Proof. destruct r; cbn; auto. intros (A & S) Hf. exact (Hf s A S). Qed.
 
   Section Bound.
-    Variable X : Z.
+    Variables X B : Z.
     Hypothesis HX : c_cap c <= X.
-    Let B := X + W.
+    Hypothesis HB : X + W <= B.
 
     (* handler-context state: the guard is up *)
     Definition H0 (bound : Z) (s : st) : Prop := K s /\ inprq s = true /\ sbb s <= bound.
@@ -159,7 +159,7 @@ Section SB.
         pose proof (wire_le m Hm) as Hw.
         set (s3 := enqueue c (next_hop c (mdest m)) m (set_scnt (scnt s1 + 1) s1)) in *.
         assert (F : resH B (fun s' => H0 (Z.min (sbb s3) X) s' \/ (H0 (sbb s3) s' /\ sbb s3 <= c_cap c)) (run fu c PFlushToCap s3)).
-        { apply (IH PFlushToCap s3); [split; [exact K3|split; [congruence|unfold B; lia]] | rewrite L3; exact S1]. }
+        { apply (IH PFlushToCap s3); [split; [exact K3|split; [congruence|lia]] | rewrite L3; exact S1]. }
         destruct (run fu c PFlushToCap s3) as [s4|s4|e s4|]; cbn [resH] in *; try exact F; try exact I.
         destruct F as ([(K4 & Q4 & B4)|((K4 & Q4 & B4) & Hc)] & S4); (split; [split; [exact K4|split; [exact Q4|lia]]|exact S4]).
       - (* PMcast *)
@@ -202,7 +202,7 @@ Section SB.
         intros (K0 & Q & B0) Hs. cbn [run]. rewrite Q. cbn [bind].
         destruct (dq s) as [|d t]; [split; [split; [exact K0|split; assumption]|exact Hs]|].
         assert (F : resH B (fun s' => H0 (sbb s) s') (run fu c (PFlushBuf d) (set_dq t s))).
-        { apply (IH (PFlushBuf d) (set_dq t s)); [split; [exact K0|split; [exact Q|unfold B; cbn; lia]]|exact Hs]. }
+        { apply (IH (PFlushBuf d) (set_dq t s)); [split; [exact K0|split; [exact Q|cbn; lia]]|exact Hs]. }
         destruct (run fu c (PFlushBuf d) (set_dq t s)) as [s4|s4|e s4|]; cbn [resH] in *; try exact F; try exact I.
         destruct F as ((K4 & Q4 & B4) & S4). cbn [sbb set_dq] in B4. split; [split; [exact K4|split; [exact Q4|lia]]|exact S4].
     Qed.
@@ -219,7 +219,7 @@ Section SB.
     end.
   Proof.
     intros HX Hl Hk Hq Hb Hs.
-    pose proof (handler_sends_bounded_all X HX fuel (PActs l) s Hl (conj Hk (conj Hq Hb)) Hs) as R.
+    pose proof (handler_sends_bounded_all X (X + W) HX (Z.le_refl _) fuel (PActs l) s Hl (conj Hk (conj Hq Hb)) Hs) as R.
     destruct (run fuel c (PActs l) s); cbn [resH] in R; try exact R; try exact I.
     destruct R as ((_ & _ & B1) & S1). split; assumption.
   Qed.
